@@ -287,7 +287,70 @@ func suiteCmdlineFn(env *Env, res *Result) {
 		}
 		cases = append(cases, CorrCase{Fields: []string{"compute_suffix", hx(ev), hx(sf), hx(ns), hx(w)}, Impl: "OK\t" + hx(a) + "\t" + hx(b), Human: "computeSuffix " + strconv.Quote(w), Class: cls})
 	}
-	compareWithModel(env, res, cases)
+	outs := compareWithModel(env, res, cases)
+	judgeWordMismatches(env, res, cases, outs)
+}
+
+// A command word on which regexpStr and the model disagree is judged on the property: the model's
+// text is what the unchanged code makes of the word.  If the code's text is no longer an
+// expression, or means something else (verified checker, confirmed on Go's engine), that word is
+// a failing input of C04.
+func judgeWordMismatches(env *Env, res *Result, cases []CorrCase, outs []string) {
+	if outs == nil {
+		return
+	}
+	type jc struct{ word, ev, impl, model string }
+	var todo []jc
+	for i, c := range cases {
+		if len(todo) >= 60 {
+			break
+		}
+		if outs[i] == c.Impl || c.Fields[0] != "regexp_str" || !strings.HasPrefix(c.Impl, "OK\t") || !strings.HasPrefix(outs[i], "OK\t") {
+			continue
+		}
+		todo = append(todo, jc{unhx(c.Fields[4]), unhx(c.Fields[1]), unhx(strings.TrimPrefix(c.Impl, "OK\t")), unhx(strings.TrimPrefix(outs[i], "OK\t"))})
+	}
+	var eq [][]string
+	var eqIdx []int
+	for k, t := range todo {
+		input := map[string]interface{}{"word": t.word, "evasion": t.ev, "code_output": t.impl, "model_output_of_the_unchanged_code": t.model}
+		r2, e2 := textToRX(t.model, false, false)
+		if e2 != nil {
+			continue // the configured pattern itself is not an expression
+		}
+		r1, e1 := textToRX(t.impl, false, false)
+		if e1 != nil {
+			if e1 != errUnsupported {
+				res.addFailure(Failure{Kind: "C04", Shape: "c04_word_regex_not_parsable", Input: input, Detail: e1.Error()})
+			}
+			continue
+		}
+		eq = append(eq, []string{"equiv", "11", eqFuel(env), r1, r2})
+		eqIdx = append(eqIdx, k)
+	}
+	if len(eq) == 0 {
+		return
+	}
+	vs, err := runDriverParallel(env, eq, 8)
+	if err != nil {
+		return
+	}
+	for j, v := range vs {
+		t := todo[eqIdx[j]]
+		if !strings.HasPrefix(v, "DIFFERS") {
+			continue
+		}
+		w, _ := wordOfVerdict(v)
+		for _, ctx := range [][2]bool{{true, true}, {true, false}, {false, true}, {false, false}} {
+			a, e1 := matchExact(t.impl, w, ctx[0], ctx[1])
+			b, e2 := matchExact(t.model, w, ctx[0], ctx[1])
+			if e1 == nil && e2 == nil && a != b {
+				res.addFailure(Failure{Kind: "C04", Shape: "c04_word_regex_changes_language", Input: map[string]interface{}{"word": t.word, "evasion": t.ev, "code_output": t.impl, "model_output_of_the_unchanged_code": t.model, "witness": w},
+					Detail: fmt.Sprintf("subject %q: the code's text matches %v, the unchanged code's text matches %v", w, a, b)})
+				break
+			}
+		}
+	}
 }
 
 func smapArg(m map[string]string, keys []string) string {
